@@ -748,6 +748,111 @@ def run (cfg : Cfg) (s : LState) : List Ev → LState × List Obs
     let (s2, os) := run cfg s1 es
     (s2, o :: os)
 
+/-! ## the request line (http.server.BaseHTTPRequestHandler.handle_one_request / parse_request, CPython 3.12)
+
+mirrors CPython Lib/http/server.py: handle_one_request (readline(65537), 414, empty line, `do_` + command lookup, 501),
+  parse_request (rstrip CR LF, str.split(), version syntax and range, word count, HTTP/0.9 rules),
+  send_response_only / send_header / end_headers (nothing is written while request_version == 'HTTP/0.9'),
+  send_error (the HTML body is written regardless).
+Header-section limits (LineTooLong / too many headers ⇒ 431) are the parameter `hdrFault`. -/
+
+/-- `str.split()` on a Latin-1 decoded line: maximal runs of non-whitespace -/
+def pySplitAux : Str → Str → List Str
+  | cur, [] => if cur = [] then [] else [cur.reverse]
+  | cur, c :: cs =>
+    if isPySpace c then (if cur = [] then pySplitAux [] cs else cur.reverse :: pySplitAux [] cs)
+    else pySplitAux (c :: cur) cs
+
+def pySplit (s : Str) : List Str := pySplitAux [] s
+
+/-- `s.rstrip('\r\n')` -/
+def rstripCRLF (s : Str) : Str := (s.reverse.dropWhile (fun c => c == '\r' || c == '\n')).reverse
+
+/-- `s.split(sep)` for a one-character separator -/
+def splitOn1 (sep : Char) : Str → Str → List Str
+  | cur, [] => [cur.reverse]
+  | cur, c :: cs => if c == sep then cur.reverse :: splitOn1 sep [] cs else splitOn1 sep (c :: cur) cs
+
+def digitsVal (s : Str) : Nat := s.foldl (fun a c => a * 10 + (c.toNat - 48)) 0
+
+/-- the `try:` block of parse_request: `some (major, minor)` or `none` = ValueError ⇒ 400.
+    (`str.isdigit` also accepts ² ³ ¹, for which `int()` then raises ValueError: same outcome) -/
+def parseVersion (v : Str) : Option (Nat × Nat) :=
+  match stripPrefix "HTTP/".toList v with
+  | none => none
+  | some base =>
+    -- version.split('/', 1)[1]: everything after the first '/'
+    match splitOn1 '.' [] base with
+    | [a, b] =>
+      if a ≠ [] ∧ b ≠ [] ∧ a.all isDigitC ∧ b.all isDigitC ∧ a.length ≤ 10 ∧ b.length ≤ 10 then
+        some (digitsVal a, digitsVal b)
+      else none
+    | _ => none
+
+/-- what reaches the peer -/
+inductive Wire where
+  | silent                       -- the connection is closed without a single octet
+  | bare (code : Nat)            -- HTTP/0.9 style: send_error's HTML body only, no status line, no headers
+  | bareBody                     -- HTTP/0.9 style: the 200 body only
+  | status (rsp : Response)      -- pywbem's response
+  | stdlib (code : Nat)          -- http.server's own error response (status line + headers + HTML)
+  | dropped (e : Exc)
+  deriving Repr, DecidableEq
+
+/-- `send_error(code)` under the current `request_version` -/
+def emitError (reqVersion : Str) (code : Nat) : Wire :=
+  if reqVersion = "HTTP/0.9".toList then .bare code else .stdlib code
+
+inductive ReqLine where
+  | silent
+  | reject (w : Wire)
+  | dispatch (command path version : Str)
+  deriving Repr, DecidableEq
+
+/-- handle_one_request up to the method lookup, for one raw request line (Latin-1 decoded, with its line end) -/
+def parseRequestLine (raw : Str) : ReqLine :=
+  if raw.length > 65536 then .reject (.stdlib 414)         -- request_version = '' at that point
+  else if raw = [] then .silent
+  else
+    let words := pySplit (rstripCRLF raw)
+    match words with
+    | [] => .silent
+    | _ =>
+      -- len(words) >= 3: the last word must be a valid version below 2.0; it becomes request_version
+      let verdict : Except Wire Str :=
+        if words.length ≥ 3 then
+          match parseVersion (words.getLast?.getD []) with
+          | none => .error (.bare 400)
+          | some (maj, _) => if maj ≥ 2 then .error (.bare 505) else .ok (words.getLast?.getD [])
+        else .ok "HTTP/0.9".toList
+      match verdict with
+      | .error w => .reject w
+      | .ok reqVersion =>
+        match words with
+        | [command, path] =>
+          if command ≠ "GET".toList then .reject (.bare 400) else .dispatch command path reqVersion
+        | [command, path, _] => .dispatch command path reqVersion
+        | _ => .reject (emitError reqVersion 400)
+
+/-- what the peer sees of a pywbem response under `request_version` -/
+def render (reqVersion : Str) (rsp : Response) : Wire :=
+  if reqVersion = "HTTP/0.9".toList then (if rsp.body = [] then .silent else .bareBody) else .status rsp
+
+/-- one connection, from the raw request line on: handle_one_request.
+    `hdrFault`: http.client.parse_headers raised LineTooLong / HTTPException (⇒ 431) -/
+def serve (cfg : Cfg) (E : Env) (s : LState) (rawLine : Str) (hdrFault : Bool) (headers : List (Str × Str))
+    (body : List Nat) : LState × Wire :=
+  match parseRequestLine rawLine with
+  | .silent => (s, .silent)
+  | .reject w => (s, w)
+  | .dispatch command _ ver =>
+    if hdrFault then (s, emitError ver 431)
+    else
+      match handle cfg E s { method := command, headers := headers, body := body } with
+      | none => (s, emitError ver 501)
+      | some (.error e) => (s, .dropped e)
+      | some (.ok (s', rsp)) => (s', render ver rsp)
+
 /-! ## handler threads: one thread per connection (socketserver.ThreadingMixIn.process_request)
 
 mirrors pywbem/_listener.py: class ThreadedHTTPServer(socketserver.ThreadingMixIn, HTTPServer) — the order of the
